@@ -10,6 +10,7 @@ CONSTANTS
   MaxFacts = 1
   EmitAll = TRUE
 INVARIANTS
+  LineageAgreesSmall
   PathsWellFormed
   ChildNodesSane
   SimSymmetric
